@@ -125,6 +125,7 @@ pub fn harnesses(prop: &str, tier: &str) -> Vec<Harness> {
         "C14" => c14(quick),
         "C15" => c15(quick),
         "C16" => c16(quick),
+        "C17" => c17(quick),
         "C18" => c18(quick),
         _ => Vec::new(),
     }
@@ -473,6 +474,18 @@ fn c16(quick: bool) -> Vec<Harness> {
     )]
 }
 
+fn c17(quick: bool) -> Vec<Harness> {
+    let cases = crate::c17::cases(quick);
+    let n = cases.len();
+    vec![crate::casex::case_harness(
+        "inotify-streams",
+        "C17",
+        cases,
+        crate::c17::run,
+        json!({"engine": "casex over simk", "cases": n, "alphabet": "every sequence of up to 3 (thorough: 4) records over 12 representative inotify records (name lengths 0,1,2,15,16,17,48 with kernel padding and minimal padding; IN_IGNORED, IN_Q_OVERFLOW, IN_UNMOUNT, unknown watch descriptor, -1), every way of cutting a sequence into successive reads that fit the 272-byte buffer, ending with an empty read / a read error / nothing, EINTR on a read, events retained across later polls and across dropping the iterator; plus every name length 0..255 and every mask bit x IN_ISDIR x watch descriptor class"}),
+    )]
+}
+
 fn c11(quick: bool) -> Vec<Harness> {
     use crate::thworld::{C11Cfg, RingMode, c11};
     let mut v = Vec::new();
@@ -611,7 +624,7 @@ fn c01(quick: bool) -> Vec<Harness> {
     v
 }
 
-pub const ALL: &[&str] = &["C01", "C02", "C03", "C04", "C05", "C06", "C07", "C08", "C09", "C10", "C11", "C12", "C14", "C15", "C16", "C18"];
+pub const ALL: &[&str] = &["C01", "C02", "C03", "C04", "C05", "C06", "C07", "C08", "C09", "C10", "C11", "C12", "C14", "C15", "C16", "C17", "C18"];
 
 pub fn assumptions(prop: &str) -> Vec<String> {
     let mut v = vec![
